@@ -690,7 +690,7 @@ def jobs(tier, seed):
         for i in range(n1):
             J.append(dict(kind="gen", name="gen-%s-1.0-%d" % (fam, i), family=fam, seed=subseed(seed, "g1", fam, i), scale=1.0, pseed=subseed(seed, "p1", fam, i), third=thorough or fam in ("kern_pairs", "markbase", "ligature", "manylookups_gsub", "shared_gpos")))
     # second scale-1 table for the families whose resolution depends on the draw (duplicates, Extension start)
-    extra = ["multiple", "alternate", "kern_classes", "manylookups_gpos", "shared_gsub", "single"]
+    extra = ["multiple", "alternate", "ligature", "kern_pairs", "markbase", "shared_gsub"]
     if not thorough:
         for fam in extra:
             J.append(dict(kind="gen", name="gen-%s-1.0-b" % fam, family=fam, seed=subseed(seed, "g1b", fam), scale=1.0, pseed=subseed(seed, "p1b", fam), third=False, rps=[rnd.choice(RPS), "F"]))
